@@ -108,6 +108,11 @@ def path(n):
             return None
         return n["name"]
     if k == "member":
+        bs = strip(n.get("base"))
+        if n.get("arrow") and isinstance(bs, dict) and bs.get("k") == "un" and bs.get("op") == "&":
+            # (&x.f)->g  is  x.f.g
+            b = path(bs.get("e"))
+            return None if b is None else b + "." + n["name"]
         b = path(n.get("base"))
         if b is None:
             return None
@@ -240,6 +245,7 @@ class Function:
                     self.blocks[s].preds.append(b.id)
         self._nodes = None
         self._calls = None
+        self._inline_member_aliases()
         # ICU renames its entry points with a version suffix (u_fprintf -> u_fprintf_72): normalise
         for b in self.blocks.values():
             for r in b.roots:
@@ -251,6 +257,77 @@ class Function:
                             n["callee"] = c[:c.rindex("_")]
                     elif n.get("k") == "ref" and n.get("dk") == "func" and _ICU_RE.match(n.get("name", "")):
                         n["name"] = n["name"][:n["name"].rindex("_")]
+
+    def _inline_member_aliases(self):
+        """`T *a = &(x->member);` with `a` never re-assigned and its address never taken: every use of `a` is replaced by the
+        initialiser, so that `a->f` and `x->member.f` are the same access path for every rule."""
+        import copy
+        inits, spoiled = {}, set()
+        for b in self.blocks.values():
+            for r in b.roots:
+                for n in walk(r):
+                    k = n.get("k")
+                    if k == "decl":
+                        for v in n.get("vars", []):
+                            ini = strip(v.get("init")) if v.get("init") is not None else None
+                            if isinstance(ini, dict) and ini.get("k") == "un" and ini.get("op") == "&" \
+                                    and isinstance(strip(ini.get("e")), dict) and strip(ini.get("e")).get("k") == "member" \
+                                    and "*" in (v.get("t") or ""):
+                                if v["name"] in inits:
+                                    spoiled.add(v["name"])
+                                inits[v["name"]] = ini
+                    elif k == "asg":
+                        l = strip(n.get("lhs"))
+                        if isinstance(l, dict) and l.get("k") == "ref":
+                            spoiled.add(l["name"])
+                    elif k == "un" and n.get("op") in ("&", "post++", "post--", "pre++", "pre--"):
+                        e = strip(n.get("e"))
+                        if isinstance(e, dict) and e.get("k") == "ref":
+                            spoiled.add(e["name"])
+        alias = {a: i for a, i in inits.items() if a not in spoiled}
+        # the aliased object's root must itself not be re-assigned (x stays the same object)
+        for a, ini in list(alias.items()):
+            rv = root_var(ini.get("e"))
+            if rv is None or rv in spoiled and rv not in {p["name"] for p in self.params}:
+                alias.pop(a)
+        if not alias:
+            return
+
+        def subst(n):
+            """replace `a` only where it is the base of `a->f` (bare uses - arguments, copies - keep the variable, whose
+            own declaration and initialiser stay in place)"""
+            if isinstance(n, dict):
+                if n.get("k") == "member" and n.get("arrow"):
+                    bs = n.get("base")
+                    inner = bs
+                    while isinstance(inner, dict) and inner.get("k") == "cast":
+                        inner = inner.get("e")
+                    if isinstance(inner, dict) and inner.get("k") == "ref" and inner.get("name") in alias and inner.get("dk") not in ("func", "enum"):
+                        rep = copy.deepcopy(alias[inner["name"]])
+                        rep["l"] = inner.get("l", rep.get("l"))
+                        rep["id"] = inner.get("id", rep.get("id"))
+                        for extra in ("ext", "ms"):
+                            if extra in inner:
+                                rep[extra] = inner[extra]
+                        n["base"] = rep
+                for key, v in list(n.items()):
+                    if isinstance(v, dict):
+                        subst(v)
+                    elif isinstance(v, list):
+                        for x in v:
+                            subst(x)
+        for b in self.blocks.values():
+            for r in b.roots:
+                if r.get("k") == "decl":
+                    # keep the declaration of the alias itself, rewrite the other initialisers
+                    for v in r.get("vars", []):
+                        if v["name"] not in alias and isinstance(v.get("init"), dict):
+                            holder = {"x": v["init"]}
+                            subst(holder)
+                            v["init"] = holder["x"]
+                else:
+                    subst(r)
+        self.member_aliases = {a: show(i) for a, i in alias.items()}
 
     @property
     def key(self):
